@@ -45,7 +45,7 @@ type CaseC19 struct {
 	InChunks  int        `json:"inchunks"`
 	Cap       int        `json:"cap"`
 	Lazy      bool       `json:"lazy"`
-	ReadN     int        `json:"readn"`   // chunks the caller reads before closing; -1 = to EOF
+	ReadN     int        `json:"readn"`    // chunks the caller reads before closing; -1 = to EOF
 	Handlers  []int      `json:"handlers"` // per handler: 1 close at once, 2 one chunk then close, 3 read all inline, 4 read all in a goroutine
 }
 
